@@ -59,7 +59,10 @@ impl Program {
         // collect all instances of type templates from the symbol table
         let mut data_types = Vec::new();
         let mut codata_types = Vec::new();
-        for (name, (pol, type_args, xtors)) in symbol_table.types {
+        // the symbol table is a hash map, so we sort the instances to obtain a deterministic order
+        let mut instances: Vec<_> = symbol_table.types.into_iter().collect();
+        instances.sort_by(|(name_1, _), (name_2, _)| name_1.cmp(name_2));
+        for (name, (pol, type_args, xtors)) in instances {
             match pol {
                 Polarity::Data => {
                     let ctors = xtors
